@@ -188,7 +188,9 @@ IncrEv ==
          d == DiffSpecs(FullObs(a), FullObs(b))
          cyc == TmrExplains(a, b, d)
          ctxk == CtxExplains(a, b, FullObs(a), FullObs(b))
-     IN Check("C19", "incremental-equals-at-once", d = {}, IF cyc THEN "F20" ELSE "CTX", cyc \/ ctxk, d, "-")
+     IN /\ Check("C19", "incremental-equals-at-once", d = {}, IF cyc THEN "F20" ELSE "CTX", cyc \/ ctxk, d, "-")
+        \* the root list is part of the graph: every specifier ever passed as a root is a root, whichever build brought it
+        /\ Check("C19", "incremental-roots-equal-at-once", SeqToSet(a.roots) = SeqToSet(b.roots), "-", FALSE, a.roots, b.roots)
   /\ l' = l + 1 /\ UNCHANGED g
 RebuildEv ==
   /\ Rec[l].ev = "rebuild"
